@@ -16,7 +16,11 @@ import (
 func outDir() string {
 	if d := os.Getenv("VERIF_OUT"); d != "" {
 		os.MkdirAll(d, 0o755)
-		if b, err := os.ReadFile("/verif/known_findings.json"); err == nil {
+		src := "/verif/known_findings.json"
+		if k := os.Getenv("VERIF_KNOWN"); k != "" { // development worktrees of /verif
+			src = k
+		}
+		if b, err := os.ReadFile(src); err == nil {
 			os.WriteFile(d+"/known_findings.json", b, 0o644)
 		}
 		return d
